@@ -489,3 +489,51 @@ theorem normProps_wf (pkt : Nat) (mods : Mods) (n : Nat) (p : Props) (hp : WFPro
     · intro v hv; simp at hv
 
 end Mochi.Codec
+
+namespace Mochi.Codec
+open Mochi.Varint
+
+/-! ### a length of the property block that `decide` can compute
+
+`encodeLength` is defined by well-founded recursion and does not reduce in the kernel; for a
+well-formed record the length of each variable-byte integer is `minLen`. -/
+
+def pvalLenC : PVal → Nat
+  | .varint n => minLen n
+  | v => (encodePVal v).length
+
+def entriesLenC : List (Nat × PVal) → Nat
+  | [] => 0
+  | (_, v) :: r => 1 + pvalLenC v + entriesLenC r
+
+theorem encodeLength_length (n : Nat) (h : n ≤ maxVBI) : (encodeLength n).length = minLen n :=
+  (C29_roundtrip_minimal n h).1
+
+theorem entriesLenC_eq (es : List (Nat × PVal)) (h : ∀ e ∈ es, wfEntry e) :
+    (encodePropList es).length = entriesLenC es := by
+  induction es with
+  | nil => rfl
+  | cons e es ih =>
+    obtain ⟨k, v⟩ := e
+    have hw := h (k, v) (by simp)
+    have ih' := ih (fun e he => h e (by simp [he]))
+    simp only [encodePropList, entriesLenC, List.length_cons, List.length_append, ih']
+    cases v with
+    | varint n => simp only [pvalLenC, encodePVal, encodeLength_length n hw.2]; omega
+    | _ => simp only [pvalLenC]; omega
+
+/-- computable form of `propsBodyLen` -/
+def propsBodyLenC (pkt : Nat) (mods : Mods) (n : Nat) (p : Props) : Nat := entriesLenC (propsToList pkt mods n p)
+
+theorem propsBodyLen_eq (pkt : Nat) (mods : Mods) (n : Nat) (p : Props) (hp : WFProps p) :
+    propsBodyLen pkt mods n p = propsBodyLenC pkt mods n p :=
+  entriesLenC_eq _ (fun e he => (propsToList_good pkt mods n p hp e he).2)
+
+
+/-- `decodePropsAt_At` with the computable length bound -/
+theorem decodePropsAt_AtC {name : String} {pkt : Nat} {mods : Mods} {n : Nat} {p : Props} {buf : Str} {off : Nat} {t : Str}
+    (h : At buf off (propsEncode pkt mods n p ++ t)) (hp : WFProps p) (hlen : propsBodyLenC pkt mods n p ≤ maxVBI) :
+    decodePropsAt name pkt buf off {} = .ok (normProps pkt mods n p, off + (propsEncode pkt mods n p).length) :=
+  decodePropsAt_At h hp (by rw [propsBodyLen_eq pkt mods n p hp]; exact hlen)
+
+end Mochi.Codec
